@@ -19,14 +19,16 @@ MODULE, CFG = 'OciUnifyConcTrace', 'OciUnifyConcTrace.cfg'
 ENTRIES = {'reader': 3, 'resolve': 2}
 
 
-def run_conc(ctx, vh, out, sched=None, n=1, entries='all', part=0, parts=1, replay=None, seed=None):
+def run_conc(ctx, vh, out, sched=None, n=1, entries='all', part=0, parts=1, replay=None, seed=None, racelog=None):
     args = ['unifyconc', '-out', out, '-n', str(n), '-entries', entries, '-part', str(part), '-parts', str(parts),
             '-seed', str(ctx.seed if seed is None else seed)]
     if sched:
         args += ['-sched', sched]
     if replay:
         args += ['-replay', replay]
-    o = vlib.run_harness(ctx, vh, args, timeout=3000)
+    # a data race does not stop the run: the detector's report goes to a file and becomes an event
+    env = {'GORACE': 'halt_on_error=0 exitcode=0 log_path=' + racelog} if racelog else None
+    o = vlib.run_harness(ctx, vh, args, timeout=3000, env=env)
     return json.loads(o.strip().splitlines()[-1])
 
 
@@ -42,6 +44,23 @@ def dedupe(ctx, traces, out):
             uniq[k] = uniq.get(k, 0) + 1
     vlib.write_trace(out, hdr, [k.split('\n') for k in uniq])
     return uniq
+
+
+def add_race_events(td, trace):
+    """Reports of the race detector (thorough tier) become `race` events, for which the
+    specification has no step: the scenario holding one is rejected by TLC."""
+    n = 0
+    for f in sorted(os.listdir(td)):
+        if not f.startswith('race.'):
+            continue
+        text = open(os.path.join(td, f), errors='replace').read()
+        if 'DATA RACE' not in text:
+            continue
+        n += text.count('WARNING: DATA RACE')
+        hdr, scen = vlib.split_scenarios(trace)
+        scen.append([scen[0][0], json.dumps(dict(op='race', msg=text[:1500]))])
+        vlib.write_trace(trace, hdr, scen)
+    return n
 
 
 def count(ctx, uniq):
@@ -122,7 +141,8 @@ def run(ctx):
     # quick: each schedule on one entry point of its style (which one rotates with the schedule and the seed); thorough: on all
     ent = 'one' if quick else 'all'
     with cf.ThreadPoolExecutor(max_workers=parts) as ex:
-        futs = [ex.submit(run_conc, ctx, vh, os.path.join(td, 'conc%02d.ndjson' % p), sp, reps, ent, p, parts) for p in range(parts)]
+        futs = [ex.submit(run_conc, ctx, vh, os.path.join(td, 'conc%02d.ndjson' % p), sp, reps, ent, p, parts, None, None,
+                          None if quick else os.path.join(td, 'race')) for p in range(parts)]
         nruns = sum(f.result()['scenarios'] for f in futs)
     traces = [os.path.join(td, 'conc%02d.ndjson' % p) for p in range(parts)]
     expect = sum((1 if quick else ENTRIES[s['style']]) * 2 for s in scheds) * reps
@@ -132,6 +152,8 @@ def run(ctx):
     ut = os.path.join(td, 'unique.ndjson')
     uniq = dedupe(ctx, traces, ut)
     count(ctx, uniq)
+    races = add_race_events(td, ut)
+    ctx.cov['data_race_reports'] = races
     ctx.cov['runs_executed'] = nruns
     ctx.cov['distinct_recorded_runs'] = len(uniq)
     ctx.cov['race_detector'] = not quick
